@@ -17,7 +17,7 @@ BUDGET = {"quick": 6000, "thorough": 80000}
 WALL = {"quick": 240, "thorough": 2700}
 MIN_CASES = {"quick": 600, "thorough": 6000}
 RULE = ("(history) Hypothesis draws a pool of operators (positive-definite / invertible / generic trees of every kind) and "
-        "caller-owned arrays (right-hand sides, initial guesses, start vectors, index arrays) and a list of 2-10 steps from an "
+        "caller-owned arrays (right-hand sides, initial guesses, start vectors, two index arrays with negative entries) and a list of 2-10 steps from an "
         "alphabet of ~35 public operations (products on both sides, .T/.H, + - * /, kron/kronsum/block_diag, annotate, densify, "
         "__getitem__, .to(None), inv/solve with every algorithm, logdet, diag, trace, exp/sqrt/pow, eig, svd, cholesky/plu, "
         "cg/gmres with x0, lanczos/arnoldi with start vectors, hutchinson with key, flatten/unflatten, repeat-an-earlier-call); "
@@ -158,8 +158,13 @@ class Ctx:
         self.B = rng.integers(-3, 4, size=(n, 2)).astype(np.complex128 if cplx else np.float64)
         self.x0 = rng.integers(-2, 3, size=n).astype(np.float64)
         self.v = rng.integers(1, 4, size=n).astype(np.float64)
-        self.idx = np.array(sorted(set(rng.integers(0, n, size=n).tolist())), dtype=np.int64)
-        self.arrays = {"b": self.b, "B": self.B, "x0": self.x0, "v": self.v, "idx": self.idx}
+        # index arrays: distinct positions in drawn order, some written as negative (from-the-end) indices
+        def index_array():
+            pos = rng.permutation(n)[:max(1, int(rng.integers(1, n + 1)))]
+            return np.array([int(p) - n if rng.random() < 0.5 else int(p) for p in pos], dtype=np.int64)
+
+        self.idx, self.idx2 = index_array(), index_array()
+        self.arrays = {"b": self.b, "B": self.B, "x0": self.x0, "v": self.v, "idx": self.idx, "idx2": self.idx2}
         self.n_base = len(self.ops)
 
     def alg(self, name):
@@ -211,7 +216,7 @@ class Ctx:
         if name == "getitem_slice":
             return A[0:2, ::2].to_dense()
         if name == "getitem_idx":
-            return A[self.idx, self.idx].to_dense()
+            return A[self.idx, self.idx2].to_dense() if s.get("i", 0) % 2 else A[self.idx, self.idx].to_dense()
         if name == "to_none":
             return A.to(None)
         if name == "inv":
